@@ -23,7 +23,7 @@ BOUNDS = {}
 OUTSIDE = ["more than 3 component names / 3 waiters / 5 operations", "boot.py argument parsing", "real threads in quit()", "the scheduler's own shutdown"]
 ASSUMPTIONS = ["POXCore is constructed per path with Scheduler.runThreaded stubbed; pox.core.time.sleep is a no-op; scheduler marked as quit before _quit's wait loop"]
 
-NAMES = ['alpha', 'beta', 'gamma']
+NAMES = ['alpha', 'alpha_beta', 'gamma']      # (a component name may contain underscores, and one name may be the first token of another)
 
 
 class Boom(Exception):
